@@ -311,6 +311,19 @@ pub fn run_script(script: &str) -> String {
                 "pb" => {
                     peer.write(&frame_bytes(0, &peer_begin(Some(0)), &[])).await;
                 }
+                "par" => {
+                    // the peer refuses the link: an attach without target (sender) / source (receiver) and a closing detach at once
+                    let mut a = if receiver_role { peer_attach_sender("s") } else { peer_attach_receiver("s") };
+                    if let Performative::Attach(at) = &mut a {
+                        if receiver_role {
+                            at.source = None;
+                        } else {
+                            at.target = None;
+                        }
+                    }
+                    peer.write(&frame_bytes(0, &a, &[])).await;
+                    peer.write(&frame_bytes(0, &peer_detach(true, true), &[])).await;
+                }
                 "pa" => {
                     if receiver_role {
                         peer.write(&frame_bytes(0, &peer_attach_sender("s"), &[])).await;
@@ -495,7 +508,11 @@ pub fn gen_script(r: &mut Rng, max_len: u64) -> String {
         } else if pb && !att && sess_free && r.below(4) != 0 {
             "att"
         } else if att && !pa && !pend && r.below(4) != 0 {
-            "pa"
+            if r.below(8) == 0 {
+                "par"
+            } else {
+                "pa"
+            }
         } else {
             match r.below(24) {
                 0..=3 => "send",
@@ -519,7 +536,7 @@ pub fn gen_script(r: &mut Rng, max_len: u64) -> String {
         let legal = match e {
             "pb" => begun && !pb,
             "att" => pb && !att && sess_free,
-            "pa" => att && !pa && !pend,
+            "pa" | "par" => att && !pa && !pend,
             "pflow" => pa && !pdet && !pend,
             "pacc" => pa && !pend && sends_out > 0,
             "pd" | "pdc" | "pde" => pa && !pdet && !pend,
@@ -548,6 +565,11 @@ pub fn gen_script(r: &mut Rng, max_len: u64) -> String {
                 pa = true;
                 sess_free = true;
                 link_free = true;
+            }
+            "par" => {
+                // refused: the attach call returns an error, the name is free again
+                att = false;
+                sess_free = true;
             }
             "pflow" => credit = 10,
             "send" => {
@@ -641,6 +663,14 @@ pub fn direct_oracle(script: &str, trace: &str) -> Vec<String> {
                     }
                 }
                 _ => {}
+            }
+        }
+        // the peer refuses the attach (attach without terminus + closing detach): its detach is answered with a closing
+        // detach in the same step and attach() returns an error
+        if *e == "par" && attaches > detaches_before_step && ends == 0 {
+            let answered = wire.iter().any(|t| t.starts_with('D') && t.ends_with('c'));
+            if !answered || !st.contains("att=err") {
+                v.push(format!("c13-refused-attach-unanswered: the peer refused the attach at step {} (closing detach): answered with a closing detach: {}, attach() returned an error: {} ({})", i, answered, st.contains("att=err"), st));
             }
         }
         match *e {
@@ -1178,7 +1208,11 @@ pub fn gen_script_rx(r: &mut Rng, max_len: u64) -> String {
         } else if pb && !att && sess_free && r.below(4) != 0 {
             "attr"
         } else if att && !pa && !pend && r.below(4) != 0 {
-            "pa"
+            if r.below(8) == 0 {
+                "par"
+            } else {
+                "pa"
+            }
         } else {
             match r.below(24) {
                 0..=3 => "recv",
@@ -1201,7 +1235,7 @@ pub fn gen_script_rx(r: &mut Rng, max_len: u64) -> String {
         let legal = match e {
             "pb" => begun && !pb,
             "attr" => pb && !att && sess_free,
-            "pa" => att && !pa && !pend,
+            "pa" | "par" => att && !pa && !pend,
             "pt" => pa && !pdet && !pend && credit > 0,
             "pd" | "pdc" | "pde" => pa && !pdet && !pend,
             "pe" | "pee" => pb && !pend,
@@ -1229,6 +1263,10 @@ pub fn gen_script_rx(r: &mut Rng, max_len: u64) -> String {
                 sess_free = true;
                 link_free = true;
                 credit = 2;
+            }
+            "par" => {
+                att = false;
+                sess_free = true;
             }
             "pt" => {
                 credit -= 1;
